@@ -233,7 +233,7 @@ def run(prog, rep):
         mod, fq = u.reader.module.path.name, u.reader.qualname
         phs = {c.ph for c in cons}
         if rets and all(r.value is not None and norm(r.value) in phs for r in rets):
-            rep.ok("decoder-fresh", f"{fq} returns an instance constructed in that call")
+            rep.ok("decoder-fresh", f"{fq} returns an instance constructed in that call", nontrivial=True)
         else:
             rep.fail("decoder-fresh", mod, fq, rets[0].node if rets else u.reader.node, "the decoder does not return an instance it constructed in this call (cached / shared object?)")
         for t in walk_terms(u.rterms):
